@@ -3,7 +3,7 @@ from __future__ import annotations
 
 import ast
 
-from .. import astu, flow, types
+from .. import evid, astu, flow, types
 from ..cfg import cfg_of
 from ..model import AnalysisError
 from ..report import key_of
@@ -46,19 +46,35 @@ def r1(R, repo):
     f = repo.func(rel, 'Dropout.__call__')
     c = cfg_of(f)
     x = astu.params(f.node)[1]
-    t0 = [n for n in c.nodes if n.kind == 'if' and astu.src(n.ast) == 'self.rate == 0.0 or deterministic']
+    t0 = [n for n in c.nodes if n.kind == 'if' and isinstance(n.ast, ast.BoolOp) and isinstance(n.ast.op, ast.Or) and 'deterministic' in astu.names_loaded(n.ast) and 'self.rate' in astu.src(n.ast)]
     t1 = [n for n in c.nodes if n.kind == 'if' and astu.src(n.ast) == 'self.rate == 1.0']
     draws = [n for n in c.nodes if n.kind == 'stmt' and ('make_rng(' in astu.src(n.stmt) or 'rngs[self.rng_collection]()' in astu.src(n.stmt))]
     R.require(len(draws) == 1, '%s Dropout.__call__: rng draw not found' % rel)
-    if not t0:
-      R.fail(key_of(f, 'rate 0 / deterministic: returns the input itself, no key drawn'), f, 'Dropout no longer returns its input early when deterministic or rate == 0: a key is consumed and the output rescaled')
+    key = key_of(f, 'rate 0 / deterministic: returns the input itself, no key drawn')
+    verdicts = []
+    for env in ({'deterministic': True, 'self.rate == 0.0': False, 'self.rate == 1.0': False}, {'self.rate == 0.0': True, 'self.rate == 1.0': False, 'deterministic': False}):
+      may, must = evid.reach_env(c, env)
+      rets_may = [n for n in c.nodes if isinstance(n.stmt, ast.Return) and n in may]
+      if draws[0] in must:
+        verdicts.append(('fail', 'with %s a key is drawn (and the output rescaled) instead of returning the input unchanged' % ' / '.join('%s=%s' % kv for kv in list(env.items())[:1])))
+      elif draws[0] not in may and rets_may and all(astu.src(n.stmt.value) == x for n in rets_may):
+        verdicts.append(('ok', ''))
+      else:
+        verdicts.append(('unsure', 'early return for %s not recognised' % list(env)[0]))
+    if any(v == 'fail' for v, _ in verdicts):
+      R.fail(key, f, 'Dropout: ' + [m_ for v, m_ in verdicts if v == 'fail'][0])
+    elif all(v == 'ok' for v, _ in verdicts):
+      R.ok(key, f)
+    else:
+      R.unsure(key, f, [m_ for v, m_ in verdicts if v == 'unsure'][0])
+    r0 = [n for n in c.nodes if isinstance(n.stmt, ast.Return) and astu.src(n.stmt.value) == x]
+    if len(t1) != 1:
+      t1 = [n for n in c.nodes if n.kind == 'if' and isinstance(n.ast, ast.Compare) and astu.is_const(n.ast.comparators[0], 1.0)]
+    if len(t1) != 1:
+      R.unsure(key_of(f, 'rate 1: zeros'), f, 'rate == 1.0 test not found')
       continue
-    R.require(len(t0) == 1 and len(t1) == 1, '%s Dropout.__call__: rate tests not found' % rel)
-    r0 = [n for n in c.nodes if isinstance(n.stmt, ast.Return) and c.edge_guarded(n, t0[0], 'T')]
-    ok = len(r0) == 1 and astu.src(r0[0].stmt.value) == x and c.edge_guarded(draws[0], t0[0], 'F') and c.dominated(draws[0], t0)
-    R.check(ok, key_of(f, 'rate 0 / deterministic: returns the input itself, no key drawn'), f, 'when deterministic or rate == 0 Dropout must return its input unchanged before any rng is drawn')
     r1_ = [n for n in c.nodes if isinstance(n.stmt, ast.Return) and c.edge_guarded(n, t1[0], 'T')]
-    R.check(len(r1_) == 1 and astu.src(r1_[0].stmt.value) == 'jnp.zeros_like(%s)' % x, key_of(f, 'rate 1: zeros'), f, 'at rate 1.0 Dropout must return zeros_like(inputs)')
+    evid.judge_expr(R, f, r1_[0].stmt.value if len(r1_) == 1 else None, 'jnp.zeros_like(%s)' % x, key_of(f, 'rate 1: zeros'), f, 'at rate 1.0 Dropout must return zeros_like(inputs)')
     bern = [y for y in astu.func_calls(f) if astu.call_name(y) == 'random.bernoulli']
     R.require(len(bern) == 1, '%s Dropout.__call__: random.bernoulli not found' % rel)
     # taint: values of `inputs` reach the mask only through .shape
@@ -80,14 +96,18 @@ def r1(R, repo):
                 stack.append(d[0])
               elif isinstance(d[0], tuple) and len(d[0]) > 1 and isinstance(d[0][1], ast.AST):
                 stack.append(d[0][1])
-    R.check(not bad, key_of(f, 'mask depends on the data only through its shape'), (f, bern[0]), 'the arguments of random.bernoulli depend on the values of `%s`: the dropout mask must be independent of the data' % x)
+    R.check(not bad, key_of(f, 'mask depends on the data only through its shape'), (f, bern[0]), evidence=True, msg_fail= 'the arguments of random.bernoulli depend on the values of `%s`: the dropout mask must be independent of the data' % x)
     kp = types.single_def(f.node, 'keep_prob')
-    R.check(kp is not None and poly(kp) == {(): 1.0, ('self.rate',): -1}, key_of(f, 'keep_prob = 1 - rate'), f, 'keep_prob must be 1.0 - self.rate (got `%s`)' % astu.src(kp))
+    kp = evid._subst_flags(kp, f) if kp is not None else None
+    R.judge(kp is not None and all(len(k_) <= 1 for k_ in poly(kp)) and set(poly(kp)) <= {(), ('self.rate',)}, kp is not None and poly(kp) == {(): 1.0, ('self.rate',): -1}, key_of(f, 'keep_prob = 1 - rate'), f, 'keep_prob must be 1.0 - self.rate (got `%s`)' % astu.src(kp))
     pk = astu.kwarg(bern[0], 'p') or (bern[0].args[1] if len(bern[0].args) > 1 else None)
-    R.check(pk is not None and astu.src(pk) == 'keep_prob', key_of(f, 'bernoulli(p=keep_prob)'), (f, bern[0]), 'the keep mask must be drawn with probability keep_prob')
+    evid.judge_expr(R, f, pk, 'keep_prob', key_of(f, 'bernoulli(p=keep_prob)'), (f, bern[0]), 'the keep mask must be drawn with probability keep_prob', follow=False, vocab=('self', 'rate'))
     rets = [n for n in c.nodes if isinstance(n.stmt, ast.Return) and n not in r0 and n not in r1_]
     ok = len(rets) == 1 and astu.src(rets[0].stmt.value) == 'lax.select(mask, %s / keep_prob, jnp.zeros_like(%s))' % (x, x)
-    R.check(ok, key_of(f, 'select(mask, inputs / keep_prob, 0)'), f, 'kept elements must be inputs / keep_prob and dropped elements zero')
+    if len(rets) == 1:
+      evid.judge_expr(R, f, rets[0].stmt.value, 'lax.select(mask, %s / keep_prob, jnp.zeros_like(%s))' % (x, x), key_of(f, 'select(mask, inputs / keep_prob, 0)'), f, 'kept elements must be inputs / keep_prob and dropped elements zero')
+    else:
+      R.unsure(key_of(f, 'select(mask, inputs / keep_prob, 0)'), f, 'final return of Dropout.__call__ not found')
 
 
 @rule('C12.R2', 'K8+K1', 6, 'BatchNorm: running statistics follow momentum*old + (1-momentum)*batch and are untouched in inference mode')
@@ -98,21 +118,22 @@ def r2(R, repo):
     t = [n for n in c.nodes if n.kind == 'if' and astu.src(n.ast) == 'use_running_average']
     R.require(len(t) == 1, '%s BatchNorm.__call__: use_running_average test not found' % rel)
     stores = [n for n in c.nodes if isinstance(n.stmt, ast.Assign) and astu.src(n.stmt.targets[0]) in (old_mean, old_var)]
-    R.check(len(stores) == 2 and all(c.edge_guarded(s, t[0], 'F') for s in stores), key_of(f, 'no update of the running statistics in inference mode'), f, 'with use_running_average the running mean / var must not be written')
+    R.judge(len(stores) >= 1, all(c.edge_guarded(s, t[0], 'F') for s in stores), key_of(f, 'no update of the running statistics in inference mode'), f, 'with use_running_average the running mean / var must not be written')
     for s in stores:
       tgt = astu.src(s.stmt.targets[0])
       batch = 'mean' if tgt == old_mean else 'var'
       got = poly(s.stmt.value)
       want = {tuple(sorted(('self.momentum', tgt))): 1, (batch,): 1, tuple(sorted(('self.momentum', batch))): -1}
-      R.check(got == want, key_of(f, '%s = m*old + (1-m)*batch' % tgt), (f, s.stmt), 'the update of %s must be momentum*old + (1-momentum)*batch_%s; got polynomial %s' % (tgt, batch, got))
+      atoms = {a_ for k_ in got for a_ in k_}
+      R.judge(atoms <= {'self.momentum', tgt, 'mean', 'var'}, got == want, key_of(f, '%s = m*old + (1-m)*batch' % tgt), (f, s.stmt), 'the update of %s must be momentum*old + (1-momentum)*batch_%s; got polynomial %s' % (tgt, batch, got))
     # in inference mode mean/var come from the running statistics
     md = [n for n in c.nodes if isinstance(n.stmt, ast.Assign) and c.edge_guarded(n, t[0], 'T') and 'mean' in astu.names_stored(n.stmt.targets[0])]
     R.check(len(md) >= 1 and all(old_mean.split('.value')[0] in astu.src(n.stmt.value) for n in md), key_of(f, 'inference uses the stored statistics'), f, 'in inference mode the normalisation must use the stored running statistics')
     cs = [x for x in astu.func_calls(f) if astu.call_name(x) == '_compute_stats']
-    R.check(len(cs) == 1 and flow.kw_forwarded(cs[0], 'mask') and all(c.edge_guarded(n, t[0], 'F') for n in c.nodes_for(cs[0])), key_of(f, 'batch statistics (with mask) only in training mode'), f, 'batch statistics must be computed with the given mask, and only when not using running averages')
+    R.judge(len(cs) == 1 and not astu.has_star_kwargs(cs[0]), len(cs) == 1 and flow.kw_forwarded(cs[0], 'mask') and all(c.edge_guarded(n, t[0], 'F') for n in c.nodes_for(cs[0])), key_of(f, 'batch statistics (with mask) only in training mode'), f, 'batch statistics must be computed with the given mask, and only when not using running averages')
     if rel == LN:
       ti = [n for n in c.nodes if n.kind == 'if' and astu.src(n.ast) == 'not self.is_initializing()']
-      R.check(len(ti) == 1 and all(c.edge_guarded(s, ti[0], 'T') for s in stores), key_of(f, 'no update while initialising'), f, 'Linen BatchNorm must not update the running statistics during init')
+      R.judge(len(ti) == 1 and bool(stores), len(ti) == 1 and all(c.edge_guarded(s, ti[0], 'T') for s in stores), key_of(f, 'no update while initialising'), f, 'Linen BatchNorm must not update the running statistics during init')
 
 
 @rule('C12.R3', 'K6', 8, '_compute_stats: every mean (also the variance of the two-pass form) is taken over the masked positions only')
@@ -122,7 +143,7 @@ def r3(R, repo):
     calls = [x for x in astu.func_calls(f) if astu.call_name(x) == 'maybe_distributed_mean']
     R.require(len(calls) == 4, '%s _compute_stats: four maybe_distributed_mean calls expected' % rel)
     for x in calls:
-      R.check(flow.kw_forwarded(x, 'mask'), key_of(f, 'mask forwarded', astu.short(x, 60)), (f, x),
+      R.check(flow.kw_forwarded(x, 'mask'), key_of(f, 'mask forwarded', astu.short(x, 60)), (f, x), evidence=not astu.has_star_kwargs(x) and len(x.args) < 2, msg_fail=
               '`%s` does not pass mask=mask: this statistic is then averaged over masked-out (padding) positions too, so padding leaks into the normalised outputs and running variance' % astu.short(x, 80))
     h = repo.func(rel, '_compute_stats.maybe_distributed_mean')
     R.check('x.mean(axes, where=mask)' in astu.src(h.node), key_of(h, 'mean(axes, where=mask)'), h, 'the helper must reduce with where=mask')
@@ -157,12 +178,12 @@ def r4(R, repo):
   a, b = repo.func(LL, '_Conv.__call__'), repo.func(NL, 'Conv.__call__')
   ta, tb = _pad_tables(a), _pad_tables(b)
   for key in ('modes', 'mode_map', 'low_high', 'dilated', 'causal_pads', 'left_pad'):
-    R.check(ta[key] == tb[key] and ta[key] is not None, key_of('Conv', 'Linen == NNX: %s' % key), a, 'Linen _Conv and NNX Conv disagree on %s: %s vs %s — the two APIs would produce different outputs for the same parameters' % (key, ta[key], tb[key]))
+    R.judge(ta[key] is not None and tb[key] is not None and ta[key] != [], ta[key] == tb[key], key_of('Conv', 'Linen == NNX: %s' % key), a, 'Linen _Conv and NNX Conv disagree on %s: %s vs %s — the two APIs would produce different outputs for the same parameters' % (key, ta[key], tb[key]))
   for f, t in ((a, ta), (b, tb)):
     R.check(sorted(t['modes']) == ['CAUSAL', 'CIRCULAR', 'REFLECT'] and t['mode_map'] == {'CIRCULAR': 'wrap', 'REFLECT': 'reflect'}, key_of(f, 'CIRCULAR->wrap, REFLECT->reflect, CAUSAL'), f, 'the special-cased padding modes must be CIRCULAR (wrap), REFLECT (reflect) and CAUSAL')
     lh = t['low_high']
     ok = lh is not None and lh[0] == '(%s - 1) // 2' % lh[2] and lh[1] == '%s // 2' % lh[2]
-    R.check(ok, key_of(f, 'pad (low, high) = ((k-1)//2, k//2) of the dilated kernel'), f,
+    R.judge(lh is not None and sorted(lh[:2]) == sorted(['(%s - 1) // 2' % lh[2], '%s // 2' % lh[2]]), ok, key_of(f, 'pad (low, high) = ((k-1)//2, k//2) of the dilated kernel'), f,
             'explicit CIRCULAR/REFLECT padding must put (k-1)//2 elements before and k//2 after along each spatial axis (got %s): swapping them shifts the output by one position for even kernel extents' % (lh,))
     R.check(t['dilated'] == '[(k - 1) * d + 1 for k, d in zip(kernel_size, kernel_dilation)]', key_of(f, 'dilated extent = (k-1)*d + 1'), f, 'the dilated kernel extent must be (k-1)*d + 1')
     R.check(t['left_pad'] == 'kernel_dilation[0] * (kernel_size[0] - 1)' and t['causal_pads'] == '[(0, 0), (left_pad, 0), (0, 0)]', key_of(f, 'CAUSAL pads d*(k-1) on the left only'), f, 'CAUSAL padding must pad dilation*(k-1) on the left and nothing on the right')
